@@ -4,6 +4,7 @@ import Juniper.Generated.Skeleton
 import Juniper.Proofs.PipeFifo
 import Juniper.Proofs.PipeNoLoss
 import Juniper.Proofs.PipeLive
+import Juniper.Proofs.PipeQueue
 /-!
 # C10 — stream.Pipe: FIFO per sender, nothing sent-before-close lost, no stuck call
 (and the Pipe clauses of C08: a call that fails on an expired context costs nothing, the close
@@ -20,8 +21,19 @@ Vocabulary (defined in `Model/Pipe.lean` and `Proofs/Pipe*.lean`): `ofSender i l
 sender `i` in `l`, in order; `sd.sent` = the messages sender `i`'s calls were started with (ghost);
 `st.ackedBC` = messages whose send on the channel succeeded before the sender's `Close` (ghost);
 `st.delivered` = what `Next` returned so far (ghost); `reportsEnd st l` = step `l` makes `Next` return
-the end / the close error; `Quiet` = no `Send`/`TrySend` in flight; `stage`/`rstage` = number of
-`select` statements a call still has in front of it.
+the end / the close error; `Quiet` = no `Send`/`TrySend` in flight; `stage`/`rstage` = upper bound on
+the number of own steps a call still has in front of it (poll-or-park, arm); `ownLabel i l` = `l` is a
+step of sender goroutine `i` (an arm of its `select`, a rendez-vous, its parking); `isRecvLabel l`
+likewise for the receiver. A call at a blocking `select` is *polling* (`send m false`, `next false`) or
+*parked* (`… true`); `canHandoff st sd` = a rendez-vous between `sd` and the receiver on the unbuffered
+channel is possible, which needs exactly one of the two to be parked (`Model/Pipe.lean`, "Polling and
+parking").
+
+**What the liveness theorems (`…_never_stuck`, `…_never_blocks`, `unbuffered_send_meets_next`) say:** an
+*enabled step* of the call that returns / brings it strictly closer to its return (measure `stage` /
+`rstage`), and that the condition under which it is enabled is *stable* under every label of the LTS.
+"The call returns" follows under the assumption — not proved, it is a property of the Go scheduler —
+that an internal step of a goroutine that stays enabled is eventually taken (weak fairness per call).
 -/
 namespace Juniper.Props.C10
 open Juniper.Facts Juniper.Gen.Pipe Juniper.Model.Pipe Juniper.Proofs.Pipe
@@ -140,48 +152,65 @@ example : ∃ st s1 s2, Reach (init 2 2) st ∧ Quiet st ∧ step st (.recv .dfl
    after (init 2 2) (demo ++ [.startNext true, .recv (.recv chCtx), .startNext false, .recv (.recv chSenderDone), .recv .dflt, .closeRecv]),
    reach_after (by decide), by decide, by decide, by decide, by decide⟩
 
-/-- **Send returns once the receiver closes, the sender closes or its context expires.** In any
-state in which a `Send` is pending and one of the three holds, an arm of its `select` that makes it
-return is enabled; and whatever step happens next, the call has either returned or is still
-pending with the condition still true (the condition is stable). That `Send` *is* that one `select`
-and nothing else is the first conjunct (regenerated control skeleton). -/
-theorem send_never_stuck {st : State} {i : Nat} {sd : Sender} {m : Msg}
-    (hsd : st.senders[i]? = some sd) (hpc : sd.pc = .send m)
+/-- **Send returns once the receiver closes, the sender closes or its context expires** — proved as:
+in any state (reachable or not) in which a `Send` is pending (polling or parked, `pc = send m p`) and
+one of the three holds,
+1. `Send` *is* one `select` and nothing else (regenerated control skeleton);
+2. an arm of that `select` is enabled whose step makes the call return (`pc = idle` afterwards);
+3. stability: whatever label of the LTS is taken next (any goroutine, any environment action), the call
+   has returned or is still pending with one of the three still true;
+4. a `Send` that has not parked yet (`p = false`) has an enabled own step in *every* state (an arm, a
+   rendez-vous, or it parks) — polling never waits;
+5. every own step of the call strictly decreases `stage ≤ 2`.
+Assumption for "returns": weak fairness of the scheduler towards this call's enabled steps. -/
+theorem send_never_stuck {st : State} {i : Nat} {sd : Sender} {m : Msg} {p : Bool}
+    (hsd : st.senders[i]? = some sd) (hpc : sd.pc = .send m p)
     (hc : st.streamDone = true ∨ st.senderDone = true ∨ sd.ctx = true) :
     Gen.Skeleton.send = Model.Skeleton.send ∧
     (∃ a st' sd', step st (.sender i a) = some st' ∧ st'.senders[i]? = some sd' ∧ sd'.pc = .idle) ∧
     (∀ l st', step st l = some st' → ∃ sd', st'.senders[i]? = some sd' ∧
-      (sd'.pc = .idle ∨ (sd'.pc = .send m ∧ (st'.streamDone = true ∨ st'.senderDone = true ∨ sd'.ctx = true)))) := by
-  refine ⟨by decide, ?_, ?_⟩
-  · obtain ⟨a, st', hs⟩ := send_enabled ⟨by decide, by decide, by decide⟩ hsd hpc hc
-    obtain ⟨sd', hsd', hlt⟩ := sender_step_progress hsd (Or.inr ⟨a, rfl⟩) hs
-    refine ⟨a, st', sd', hs, hsd', ?_⟩
-    rw [hpc] at hlt
-    cases hp : sd'.pc <;> simp [hp, stage] at hlt ⊢
-  · intro l st' hs
-    exact send_cond_stable hsd hpc hc hs
+      (sd'.pc = .idle ∨ ((∃ p', sd'.pc = .send m p') ∧
+        (st'.streamDone = true ∨ st'.senderDone = true ∨ sd'.ctx = true)))) ∧
+    (p = false → ∃ l st', ownLabel i l ∧ step st l = some st') ∧
+    (∀ l st', ownLabel i l → step st l = some st' →
+      ∃ sd', st'.senders[i]? = some sd' ∧ stage sd'.pc < stage sd.pc) ∧ stage sd.pc ≤ 2 := by
+  refine ⟨by decide, send_enabled ⟨by decide, by decide, by decide⟩ hsd hpc hc,
+    fun l st' hs => send_cond_stable hsd hpc hc hs, ?_, ?_, ?_⟩
+  · intro hp; subst hp; exact send_poll_enabled hsd hpc
+  · intro l st' hl hs
+    obtain ⟨sd', h1, h2, _⟩ := sender_step_progress hsd hl hs
+    exact ⟨sd', h1, h2⟩
+  · rw [hpc]; cases p <;> simp [stage]
 
 
 /-- non-vacuity: sender 0 parked in `Send 9` on a full buffer when the sender is closed -/
-example : ∃ st sd m, Reach (init 2 2) st ∧ st.senders[0]? = some sd ∧ sd.pc = .send m ∧ st.senderDone = true ∧ m.val = 9 :=
-  ⟨after (init 2 2) (demo.take 7), ⟨.send ⟨0, 1, 9⟩, false, [⟨0, 0, 7⟩, ⟨0, 1, 9⟩]⟩, ⟨0, 1, 9⟩,
+example : ∃ st sd m, Reach (init 2 2) st ∧ st.senders[0]? = some sd ∧ sd.pc = .send m false ∧ st.senderDone = true ∧ m.val = 9 :=
+  ⟨after (init 2 2) (demo.take 7), ⟨.send ⟨0, 1, 9⟩ false, false, [⟨0, 0, 7⟩, ⟨0, 1, 9⟩]⟩, ⟨0, 1, 9⟩,
    reach_after (by decide), by decide, by decide, by decide, by decide⟩
+/-- … and the same `Send` parked (it polled the full buffer before the `Close`) -/
+example : ∃ st sd m, Reach (init 2 2) st ∧ st.senders[0]? = some sd ∧ sd.pc = .send m true ∧ st.senderDone = true :=
+  ⟨after (init 2 2) (demo.take 6 ++ [.park 0, .closeSender true]), ⟨.send ⟨0, 1, 9⟩ true, false, [⟨0, 0, 7⟩, ⟨0, 1, 9⟩]⟩, ⟨0, 1, 9⟩,
+   reach_after (by decide), by decide, by decide, by decide⟩
 
-/-- **TrySend never blocks.** Its body consists of exactly two `select` statements — no statement
-before, between or after them that could block or return early (regenerated control skeleton) —, both
-with a `default` arm (regenerated tables); hence in every state a pending `TrySend` has an enabled step of its own, and each of its
-steps takes it to the next `select` or returns — it returns after at most two own steps without
-waiting for any other goroutine. -/
+/-- **TrySend never blocks** — proved as: its body consists of exactly two `select` statements — no
+statement before, between or after them that could block or return early (regenerated control
+skeleton) —, both with a `default` arm (regenerated tables); in *every* state (reachable or not,
+whatever the other goroutines do) a pending `TrySend` has an enabled step of its own (an arm, `default`,
+or a rendez-vous with a *parked* `Next`); each own step strictly decreases `stage ≤ 2`, i.e. takes it to
+the second `select` or returns. So it returns after at most two own steps and never waits for another
+goroutine. (That the scheduler runs the goroutine is the only assumption.) -/
 theorem trySend_never_blocks {st : State} {i : Nat} {sd : Sender} {m : Msg}
     (hsd : st.senders[i]? = some sd) (hpc : sd.pc = .try1 m ∨ sd.pc = .try2 m) :
     Gen.Skeleton.trySend = Model.Skeleton.trySend ∧
     (trySendArms1.contains .dflt = true ∧ trySendArms2.contains .dflt = true) ∧
-    (∃ l st', (l = .handoff i ∨ ∃ a, l = .sender i a) ∧ step st l = some st') ∧
-    (∀ l st', (l = .handoff i ∨ ∃ a, l = .sender i a) → step st l = some st' →
+    (∃ l st', ownLabel i l ∧ step st l = some st') ∧
+    (∀ l st', ownLabel i l → step st l = some st' →
       ∃ sd', st'.senders[i]? = some sd' ∧ stage sd'.pc < stage sd.pc) ∧
     stage sd.pc ≤ 2 :=
   ⟨by decide, ⟨by decide, by decide⟩, trySend_enabled ⟨by decide, by decide, by decide⟩ hsd hpc,
-    fun _ _ hl hs => sender_step_progress hsd hl hs,
+    fun _ _ hl hs => by
+      obtain ⟨sd', h1, h2, _⟩ := sender_step_progress hsd hl hs
+      exact ⟨sd', h1, h2⟩,
     by rcases hpc with h | h <;> simp [h, stage]⟩
 
 
@@ -191,36 +220,135 @@ example : ∃ st sd m, Reach (init 2 2) st ∧ st.senders[1]? = some sd ∧ sd.p
 example : ∃ st sd m, Reach (init 2 2) st ∧ st.senders[1]? = some sd ∧ sd.pc = .try2 m :=
   ⟨after (init 2 2) (demo.take 4), ⟨.try2 ⟨1, 0, 8⟩, false, [⟨1, 0, 8⟩]⟩, ⟨1, 0, 8⟩, reach_after (by decide), by decide, by decide⟩
 
-/-- **Next returns once a value is available, the sender closes or its context expires.** In any
-state in which `Next` is parked in its main `select` and one of these holds, a step of the receiver
-is enabled and takes `Next` strictly closer to its return; in the drain (if the source has one) it never waits at all (it
-returns with the next step of the receiver); and the stable part of the condition — a buffered
-value, the sender's `Close`, the expired context — persists while `Next` is parked. First conjunct:
-`Next` is that `select` (with the drain `select` and the report inside its `senderDone` arm) and
-nothing else (regenerated control skeleton). -/
+/-- **Next returns once a value is available, the sender closes or its context expires** — proved as,
+in every state (reachable or not):
+1. `Next` is one `select` (with the drain `select` and the report inside its `senderDone` arm) and nothing
+   else (regenerated control skeleton);
+2. if `Next` is at its main `select` (polling or parked) and a value is buffered, a rendez-vous is
+   possible (`canHandoff`: unbuffered pipe, a sender offers, exactly one side parked), the sender is
+   closed or the context expired, then a step of the receiver is enabled that strictly decreases `rstage`;
+3. a `Next` that has not parked yet has an enabled own step in every state (an arm, a rendez-vous with
+   a parked `Send`, or it parks), which decreases `rstage` — polling never waits;
+4. in the drain (if the source has one) it never waits: a receiver step is enabled and returns;
+5. stability: the part of the condition that does not depend on other calls — a buffered value, the
+   sender's `Close`, the expired context — persists under every label while `Next` is at its main `select`.
+(That a pending `Send` and a pending `Next` on an unbuffered pipe do reach a state with `canHandoff` is
+`unbuffered_send_meets_next`.) Assumption for "returns": weak fairness of the scheduler towards the
+receiver's enabled steps. -/
 theorem next_never_stuck {st : State} :
     Gen.Skeleton.pipeNext = Model.Skeleton.pipeNext ∧
-    (st.rpc = .next →
+    (∀ p, st.rpc = .next p →
       (st.buf ≠ [] ∨ (∃ sd ∈ st.senders, canHandoff st sd = true) ∨ st.senderDone = true ∨ st.rctx = true) →
+      ∃ l st', isRecvLabel l = true ∧ step st l = some st' ∧ rstage st'.rpc < rstage st.rpc) ∧
+    (st.rpc = .next false →
       ∃ l st', isRecvLabel l = true ∧ step st l = some st' ∧ rstage st'.rpc < rstage st.rpc) ∧
     (nextDrains = true → st.rpc = .drain →
       ∃ l st', isRecvLabel l = true ∧ step st l = some st' ∧ st'.rpc = .idle) ∧
-    (st.rpc = .next → (st.buf ≠ [] ∨ st.senderDone = true ∨ st.rctx = true) →
+    (st.rpc.isNext = true → (st.buf ≠ [] ∨ st.senderDone = true ∨ st.rctx = true) →
       ∀ l st', step st l = some st' →
-        st'.rpc ≠ .next ∨ (st'.buf ≠ [] ∨ st'.senderDone = true ∨ st'.rctx = true)) := by
+        st'.rpc.isNext = false ∨ (st'.buf ≠ [] ∨ st'.senderDone = true ∨ st'.rctx = true)) := by
   have hF : NextFacts := ⟨by decide, by decide, by decide, fun _ => by decide, fun _ => by decide, by decide⟩
-  exact ⟨by decide, fun hpc hc => next_enabled hF hpc hc, fun hd hpc => drain_enabled hF hd hpc,
-    fun hpc hc l st' hs => next_cond_stable hpc hc hs⟩
+  exact ⟨by decide, fun p hpc hc => next_enabled hF hpc hc, fun hpc => next_poll_enabled hpc,
+    fun hd hpc => drain_enabled hF hd hpc, fun hpc hc l st' hs => next_cond_stable hpc hc hs⟩
 
 
-/-- non-vacuity: `Next` parked with two buffered values and a closed sender; `Next` in the drain;
-`Next` facing a sender parked on an unbuffered pipe -/
-example : ∃ st, Reach (init 2 2) st ∧ st.rpc = .next ∧ st.buf ≠ [] ∧ st.senderDone = true :=
+/-- non-vacuity: `Next` at its select with two buffered values and a closed sender; `Next` in the drain;
+`Next` polling while a `Send` is parked on an unbuffered pipe (rendez-vous possible) -/
+example : ∃ st, Reach (init 2 2) st ∧ st.rpc = .next false ∧ st.buf ≠ [] ∧ st.senderDone = true :=
   ⟨after (init 2 2) (demo.take 9), reach_after (by decide), by decide, by decide, by decide⟩
 example : ∃ st, Reach (init 2 2) st ∧ st.rpc = .drain :=
   ⟨after (init 2 2) (demo.take 10), reach_after (by decide), by decide⟩
-example : ∃ st sd, Reach (init 1 0) st ∧ st.rpc = .next ∧ sd ∈ st.senders ∧ canHandoff st sd = true :=
-  ⟨after (init 1 0) [.startSend 0 5 false, .startNext false], ⟨.send ⟨0, 0, 5⟩, false, [⟨0, 0, 5⟩]⟩,
+example : ∃ st sd, Reach (init 1 0) st ∧ st.rpc = .next false ∧ sd ∈ st.senders ∧ canHandoff st sd = true :=
+  ⟨after (init 1 0) [.startSend 0 5 false, .park 0, .startNext false], ⟨.send ⟨0, 0, 5⟩ true, false, [⟨0, 0, 5⟩]⟩,
+   reach_after (by decide), by decide, by decide, by decide⟩
+
+/-- **No lost rendez-vous on an unbuffered pipe.** In every reachable state of a pipe with `bufferSize = 0`
+in which a `Send` and a `Next` are both pending (each polling or parked), an internal step of one of the
+two calls is enabled: whoever is still polling can fire an arm, complete the rendez-vous with the parked
+partner, or park; and the two are never both parked (wait-queue invariant `QInv`: the poll of the
+second to arrive finds the first in the queue — `park` is enabled only if no partner is parked). Each
+such step decreases `stage`/`rstage`, so after at most two of them the rendez-vous `handoff i` itself, or a
+returning arm, is enabled. Assumption for "they do meet": weak fairness of the scheduler. -/
+theorem unbuffered_send_meets_next {n : Nat} {st : State} {i : Nat} {sd : Sender} {m : Msg} {p q : Bool}
+    (hr : Reach (init n 0) st) (hsd : st.senders[i]? = some sd) (hpc : sd.pc = .send m p)
+    (hn : st.rpc = .next q) :
+    (sendArms.contains (.send chData) = true ∧ nextArms.contains (.recv chData) = true) ∧
+    ¬(p = true ∧ q = true) ∧
+    ((∃ l st', ownLabel i l ∧ step st l = some st') ∨
+     (∃ l st', isRecvLabel l = true ∧ step st l = some st' ∧ rstage st'.rpc < rstage st.rpc)) := by
+  have hcap : st.cap = 0 := by
+    have : ∀ {st}, Reach (init n 0) st → st.cap = 0 := by
+      intro st hr
+      induction hr with
+      | refl => simp [init, chanCap]
+      | step _ hs ih => rw [cap_step hs, ih]
+    exact this hr
+  have hq := qinv_reach ⟨by decide, by decide⟩ hr hcap
+  have hnot : ¬(p = true ∧ q = true) := by
+    rintro ⟨rfl, rfl⟩
+    have := hq (by simp [hn, RPc.parked]) sd (List.mem_of_getElem? hsd)
+    simp [hpc, SPc.parked] at this
+  refine ⟨⟨by decide, by decide⟩, hnot, ?_⟩
+  cases p with
+  | false => exact Or.inl (send_poll_enabled hsd hpc)
+  | true =>
+    cases q with
+    | false => exact Or.inr (next_poll_enabled hn)
+    | true => exact (hnot ⟨rfl, rfl⟩).elim
+
+
+/-- non-vacuity: both polling; `Send` parked, `Next` polling; `Next` parked, `Send` polling -/
+example : ∃ st sd, Reach (init 1 0) st ∧ st.senders[0]? = some sd ∧ sd.pc = .send ⟨0, 0, 5⟩ false ∧ st.rpc = .next false :=
+  ⟨after (init 1 0) [.startSend 0 5 false, .startNext false], _, reach_after (by decide), rfl, rfl, rfl⟩
+example : ∃ st sd, Reach (init 1 0) st ∧ st.senders[0]? = some sd ∧ sd.pc = .send ⟨0, 0, 5⟩ true ∧ st.rpc = .next false :=
+  ⟨after (init 1 0) [.startSend 0 5 false, .park 0, .startNext false], _, reach_after (by decide), rfl, rfl, rfl⟩
+example : ∃ st sd, Reach (init 1 0) st ∧ st.senders[0]? = some sd ∧ sd.pc = .send ⟨0, 0, 5⟩ false ∧ st.rpc = .next true :=
+  ⟨after (init 1 0) [.startNext false, .parkRecv, .startSend 0 5 false], _, reach_after (by decide), rfl, rfl, rfl⟩
+
+/-! ### Non-blocking selects meet only parked partners (audit C10 F1)
+
+The second `select` of `TrySend` and the drain `select` of `Next` are both non-blocking: neither ever
+waits in a channel queue, so they cannot rendez-vous with each other. -/
+
+/-- Sender 0 between the two selects of `TrySend 5` on an unbuffered pipe when the sender is closed with
+an error; `Next` takes the `senderDone` arm and stands at its drain `select`. -/
+def raceTryDrain : List Label :=
+  [.startNext false, .parkRecv, .startTry 0 5 false, .sender 0 .dflt, .closeSender true, .recv (.recv chSenderDone)]
+
+/-- In that state **both `default`s are enabled and the rendez-vous is not**: `TrySend` returns `false`,
+`Next` reports the close error — the outcome real threads show (`Next=err, TrySend=false`). -/
+example : ∃ st, Reach (init 1 0) st ∧ st.rpc = .drain ∧ st.senders[0]?.map (·.pc) = some (.try2 ⟨0, 0, 5⟩) ∧
+    (step st (.recv .dflt)).isSome = true ∧ (step st (.sender 0 .dflt)).isSome = true ∧ step st (.handoff 0) = none :=
+  ⟨after (init 1 0) raceTryDrain, reach_after (by decide), by decide, by decide, by decide, by decide, by decide⟩
+
+/-- … and the run to the end, with the results of the two calls: `Next = err`, `TrySend = false`. -/
+example : runCompletions (init 1 0) (raceTryDrain ++ [.recv .dflt, .sender 0 .dflt]) = [(.recv, .err), (.sender 0, .fls)] ∧
+    (run (init 1 0) (raceTryDrain ++ [.recv .dflt, .sender 0 .dflt])).isSome = true := by decide
+
+/-- `TrySend` on an unbuffered pipe with a *parked* `Next`: at the second `select` the rendez-vous is the
+only own step (`default` is not enabled), `TrySend` returns `true` and `Next` the value. -/
+example : ∃ st, Reach (init 1 0) st ∧ st.rpc = .next true ∧ st.senders[0]?.map (·.pc) = some (.try2 ⟨0, 0, 5⟩) ∧
+    step st (.sender 0 .dflt) = none ∧ step st (.sender 0 (.send chData)) = none ∧
+    completions st (.handoff 0) = [(.sender 0, .tru), (.recv, .val 5)] ∧ (step st (.handoff 0)).isSome = true :=
+  ⟨after (init 1 0) [.startNext false, .parkRecv, .startTry 0 5 false, .sender 0 .dflt], reach_after (by decide),
+   by decide, by decide, by decide, by decide, by decide, by decide⟩
+
+/-- … while a `Next` that has been started but has not parked yet is not in the wait queue: `TrySend`
+takes its `default` (returns `false`), no rendez-vous. -/
+example : ∃ st, Reach (init 1 0) st ∧ st.rpc = .next false ∧ st.senders[0]?.map (·.pc) = some (.try2 ⟨0, 0, 5⟩) ∧
+    (step st (.sender 0 .dflt)).isSome = true ∧ step st (.handoff 0) = none :=
+  ⟨after (init 1 0) [.startNext false, .startTry 0 5 false, .sender 0 .dflt], reach_after (by decide),
+   by decide, by decide, by decide, by decide⟩
+
+/-- The drain receives from an unbuffered pipe only from a *parked* `Send`: with a `Send` that is still
+polling the drain's `default` is enabled and the rendez-vous is not; once the `Send` is parked it is the
+other way round. (A `Send` cannot park after the `Close`, so the parked case needs the `Send` to have
+parked before it.) -/
+example : ∃ st, Reach (init 1 0) st ∧ st.rpc = .drain ∧ (step st (.recv .dflt)).isSome = true ∧ step st (.handoff 0) = none :=
+  ⟨after (init 1 0) [.startSend 0 5 false, .closeSender false, .startNext false, .recv (.recv chSenderDone)],
+   reach_after (by decide), by decide, by decide, by decide⟩
+example : ∃ st, Reach (init 1 0) st ∧ st.rpc = .drain ∧ step st (.recv .dflt) = none ∧ (step st (.handoff 0)).isSome = true :=
+  ⟨after (init 1 0) [.startSend 0 5 false, .park 0, .closeSender false, .startNext false, .recv (.recv chSenderDone)],
    reach_after (by decide), by decide, by decide, by decide⟩
 
 /-! ## Pipe clauses of C08 -/
@@ -268,7 +396,7 @@ statement besides its `select`, the drain and that report — no test of the err
 theorem pipe_close_error_after_data {n b : Nat} {st st' : State} {l : Label} (hr : Reach (init n b) st)
     (hs : step st l = some st') (hrep : reportsEnd st l = true) :
     (Gen.Skeleton.senderClose = Model.Skeleton.senderClose ∧ Gen.Skeleton.pipeNext = Model.Skeleton.pipeNext) ∧
-    st.senderDone = true ∧ endResult st = (if st.senderErr then "err" else "end") ∧
+    st.senderDone = true ∧ endResult st = (if st.senderErr then Res.err else Res.fin) ∧
     ∀ m ∈ st'.ackedBC, m ∈ st'.delivered := by
   obtain ⟨_, hrpc, _, _, _⟩ := report_only_when_drained ⟨by decide, by decide, by decide⟩ hs hrep
   refine ⟨⟨by decide, by decide⟩, (inv_reach (by decide) hr).drain hrpc, ?_, (pipe_no_loss_at_report hr hs hrep).2.2⟩
